@@ -174,6 +174,57 @@ func (h *history) String() string {
 
 var oversizeValue = []byte(strings.Repeat("L", 70000))
 
+// Symbolic sizes: a key written "base#100" or "base#max" in a program stands for base padded to 100 bytes / to the
+// largest key the engine accepts (65 514 bytes); its values are padded to 3 000 / 65 535 bytes (the largest accepted).
+// Programs, models, histories and replay files keep the short symbolic form; xKey/xVal expand at the engine's API and
+// sVal checks the length of what comes back and strips the padding again.
+const (
+	maxKeyBytes   = 65535 - 21
+	maxValueBytes = 65535
+)
+
+func sizeClass(k string) (base string, keyLen, valLen int) {
+	i := strings.LastIndex(k, "#")
+	if i < 0 {
+		return k, 0, 0
+	}
+	switch k[i+1:] {
+	case "100":
+		return k[:i], 100, 3000
+	case "max":
+		return k[:i], maxKeyBytes, maxValueBytes
+	}
+	return k, 0, 0
+}
+
+func xKey(k string) string {
+	base, kl, _ := sizeClass(k)
+	if kl == 0 {
+		return k
+	}
+	// the padding goes after the first byte: keys with the same first byte share a long prefix and differ at the end
+	return base[:1] + strings.Repeat("-", kl-len(base)) + base[1:]
+}
+
+func xVal(k, v string) []byte {
+	_, _, vl := sizeClass(k)
+	if vl == 0 || len(v) >= vl {
+		return []byte(v)
+	}
+	return []byte(v + strings.Repeat("~", vl-len(v)))
+}
+
+func sVal(k string, v []byte) string {
+	_, _, vl := sizeClass(k)
+	if vl == 0 {
+		return string(v)
+	}
+	if len(v) != vl {
+		return fmt.Sprintf("<%d bytes instead of %d>", len(v), vl)
+	}
+	return strings.TrimRight(string(v), "~")
+}
+
 // liveTxn is a transaction whose operations have run and whose Commit/Discard is still to come.
 type liveTxn struct {
 	tx   *originium.Txn
@@ -223,10 +274,13 @@ func (l *liveTxn) do(o txOp) {
 	oo := obsOp{Op: o.Op, K: o.K, V: o.V}
 	switch o.Op {
 	case "G":
-		v, ok := tx.Get(o.K)
-		oo.V, oo.Found = string(v), ok
+		v, ok := tx.Get(xKey(o.K))
+		oo.V, oo.Found = sVal(o.K, v), ok
+		if !ok {
+			oo.V = ""
+		}
 	case "S":
-		if err := tx.Set(o.K, []byte(o.V)); err != nil {
+		if err := tx.Set(xKey(o.K), xVal(o.K, o.V)); err != nil {
 			oo.Err = err.Error()
 		}
 	case "L":
@@ -240,7 +294,7 @@ func (l *liveTxn) do(o txOp) {
 			oo.V = string(oversizeValue)
 		}
 	case "D":
-		if err := tx.Delete(o.K); err != nil {
+		if err := tx.Delete(xKey(o.K)); err != nil {
 			oo.Err = err.Error()
 		}
 	}
